@@ -158,6 +158,8 @@ func runPES(line []byte, rec *recorder) {
 		if err != nil {
 			return M{}, "err", 0, ""
 		}
+		scramble(b)
+		defer scramble(b)
 		return projPESHeader(d.Header), "nil", len(d.Data), digest(d.Data)
 	}
 	wvec := func(class string, h *astits.PESHeader, paylen int) {
@@ -290,6 +292,10 @@ func runPES(line []byte, rec *recorder) {
 			o := randOpt(r, 1, 8)
 			o.Extension2Data, o.Extension2Length = r.bytes(n), uint8(n)
 			wvec("extension2-length", &astits.PESHeader{StreamID: sidOf(), OptionalHeader: o}, 4)
+			// the redundant length field of the value disagrees with the data: the bytes written follow the data
+			o2 := randOpt(r, 1|r.intn(256)&0xfc, 8|r.intn(8))
+			o2.Extension2Data, o2.Extension2Length = r.bytes(n), uint8(r.intn(128))
+			wvec("extension2-redundant-length", &astits.PESHeader{StreamID: sidOf(), OptionalHeader: o2}, 4)
 		}
 		for k := 0; k < 13; k++ {
 			o := randOpt(r, 1, 4)
